@@ -57,8 +57,8 @@ fn bounds_for(prop: &str, tier: &str, th: &Theory) -> Bounds {
         extra_new: if thorough { m("extra_new", 1) as usize } else { 0 },
         max_defines: if thorough { 2 } else { 1 },
         max_closes: if thorough { 3 } else { 2 },
-        state_cap: envu("VERIF_STATE_CAP", if thorough { 1_500_000 } else { 150_000 }) as usize,
-        wall_cap_s: envu("VERIF_THEORY_WALL", if thorough { 900 } else { 15 }),
+        state_cap: envu("VERIF_STATE_CAP", if thorough { 400_000 } else { 150_000 }) as usize,
+        wall_cap_s: envu("VERIF_THEORY_WALL", if thorough { 60 } else { 10 }),
         close_until: prop == "C07",
     };
     if let Ok(d) = std::env::var("VERIF_DEPTH") { b.depth = d.parse().unwrap(); }
